@@ -20,7 +20,8 @@
 (*            none                                                         *)
 (*   subs   : sequence of programs (the DAGs it may call)                  *)
 (* A REFERENCE is [c, v, n, path]: c = "const" (v), "param" (n, then a key *)
-(* path), "site" (n, then the key path: each key [k |-> "i"/"s", i, x]),   *)
+(* path), "site" (n, then the key path: each key [k |-> "i"/"s"/"li"/"ti",  *)
+(* i, x, q]: an int, a string, a list of ints, a tuple of ints),           *)
 (* "none".                                                                 *)
 (***************************************************************************)
 EXTENDS Naturals, Integers, Sequences, FiniteSets, TLC
@@ -33,6 +34,9 @@ VStr(x) == V("s", 0, <<>>, x, <<>>)
 VTup(q) == V("t", 0, q, "", <<>>)
 VList(q) == V("l", 0, q, "", <<>>)
 VDict(ks, q) == V("d", 0, q, "", ks)
+\* a container with the indexing convention of numpy / pandas: its rows are lists; g[i] is a row, g[[i, j]] (a LIST key)
+\* the list of the rows i and j, g[i, j] (a TUPLE key) one cell
+VGrid(rows) == V("g", 0, rows, "", <<>>)
 VErr == V("err", 0, <<>>, "", <<>>)
 IsErr(v) == v.k = "err"
 
@@ -41,6 +45,7 @@ Truthy(v) == CASE v.k \in {"i", "b"} -> v.i # 0
                [] v.k = "n" -> FALSE
                [] v.k = "s" -> v.x # ""
                [] v.k \in {"t", "l", "d"} -> Len(v.s) > 0
+               [] v.k = "g" -> TRUE
                [] OTHER -> FALSE
 
 \* obj[key]...: the indexing the user wrote
@@ -53,6 +58,15 @@ Index(v, path) ==
        THEN Index(v.s[key.i + 1], Tail(path))
        ELSE IF key.k = "s" /\ v.k = "d" /\ KeyPos(v.ks, key.x) # 0
        THEN Index(v.s[KeyPos(v.ks, key.x)], Tail(path))
+       \* the keys of a grid: an int (a row), a list of ints (several rows), a tuple of two ints (a cell).  The key is handed
+       \* to the container as the user wrote it - a list stays a list
+       ELSE IF key.k = "i" /\ v.k = "g" /\ key.i >= 0 /\ key.i < Len(v.s)
+       THEN Index(v.s[key.i + 1], Tail(path))
+       ELSE IF key.k = "li" /\ v.k = "g" /\ \A j \in 1..Len(key.q) : key.q[j] >= 0 /\ key.q[j] < Len(v.s)
+       THEN Index(VList([j \in 1..Len(key.q) |-> v.s[key.q[j] + 1]]), Tail(path))
+       ELSE IF key.k = "ti" /\ v.k = "g" /\ Len(key.q) = 2 /\ key.q[1] >= 0 /\ key.q[1] < Len(v.s) /\ key.q[2] >= 0
+               /\ key.q[2] < Len(v.s[key.q[1] + 1].s)
+       THEN Index(v.s[key.q[1] + 1].s[key.q[2] + 1], Tail(path))
        ELSE VErr
 
 IntLike(v) == v.k = "i"
@@ -67,6 +81,7 @@ Apply(fn, a) ==
     [] fn = "pair"   -> VTup(<<a[2], VTup(<<a[1], a[2]>>)>>)
     [] fn = "mkdict" -> VDict(<<"a", "b">>, <<a[2], VTup(<<a[1], a[2]>>)>>)
     [] fn = "mklist" -> VList(<<a[2], a[3], a[1]>>)
+    [] fn = "mkgrid" -> VGrid(<<VList(<<a[1], a[2]>>), VList(<<a[2], a[3]>>), VList(<<a[3], a[1]>>)>>)
     [] fn = "ident"  -> a[1]
     [] fn = "label"  -> IF IntLike(a[1]) THEN VStr("n" \o ToString(a[1].i)) ELSE VErr
     \* + on two ints, or the concatenation of two strings / tuples / lists (which does not commute)
